@@ -58,7 +58,7 @@ def make_weighting(spec):
 
 
 def _posfn(searcher, fieldname, text, matcher):
-    return 1.0 + matcher.weight() / (1.0 + matcher.id() % 7)
+    return 1.0 + 0.5 * matcher.weight()
 
 
 def generate(seed, tier):
